@@ -83,6 +83,11 @@ type Unit struct {
 	// NativeRewrite: textual substitutions applied (for native runs only) to files of the
 	// current /repo tree, e.g. time.NewTicker( -> verifNewTicker( so that the harness controls tickers.
 	NativeRewrite map[string][][2]string `json:"native_rewrite"`
+	// Rewrite: like NativeRewrite but applied in both modes (symbolic load and native runs): the
+	// environment a package talks to (package os, time.Sleep) is redirected to a harness model
+	// written in Go. "*" as the file name applies the substitutions to every non-test .go file
+	// of the unit's package. Every substitution is part of the claim and is listed in the evidence.
+	Rewrite map[string][][2]string `json:"rewrite"`
 
 	spec   *Spec
 	params map[string]int
@@ -245,6 +250,9 @@ func buildOverlay(spec *Unit) map[string][]byte {
 		}
 		ov[filepath.Join(pdir, filepath.Base(f))] = rewritePackageClause(b, pname)
 	}
+	for path, txt := range sourceRewrites(spec) {
+		ov[path] = txt
+	}
 	for dir, files := range spec.ExtraFiles {
 		d := filepath.Join(repoDir, dir)
 		dn := pkgNameOf(d)
@@ -257,6 +265,45 @@ func buildOverlay(spec *Unit) map[string][]byte {
 		}
 	}
 	return ov
+}
+
+// sourceRewrites applies the unit's Rewrite substitutions to the current /repo sources.
+func sourceRewrites(u *Unit) map[string][]byte {
+	out := map[string][]byte{}
+	if len(u.Rewrite) == 0 {
+		return out
+	}
+	pdir := filepath.Join(repoDir, u.Package)
+	apply := func(path string, subs [][2]string) {
+		b, ok := out[path]
+		if !ok {
+			var err error
+			b, err = os.ReadFile(path)
+			if err != nil {
+				panic(err)
+			}
+		}
+		txt := string(b)
+		for _, s := range subs {
+			txt = strings.ReplaceAll(txt, s[0], s[1])
+		}
+		out[path] = []byte(txt)
+	}
+	if subs, ok := u.Rewrite["*"]; ok {
+		ents, _ := os.ReadDir(pdir)
+		for _, e := range ents {
+			n := e.Name()
+			if strings.HasSuffix(n, ".go") && !strings.HasSuffix(n, "_test.go") && !strings.HasPrefix(n, "zz_verif") {
+				apply(filepath.Join(pdir, n), subs)
+			}
+		}
+	}
+	for rel, subs := range u.Rewrite {
+		if rel != "*" {
+			apply(filepath.Join(repoDir, rel), subs)
+		}
+	}
+	return out
 }
 
 func loadProgram(spec *Unit) (*Program, error) {
@@ -298,7 +345,7 @@ func defaultNoop(mod string) []string {
 func (p *Program) newInterp(spec *Unit, hs *HarnessSpec, tier string, ex *Explorer) *Interp {
 	in := &Interp{prog: p.prog, ex: ex, spec: spec, modPath: p.modPath, mainPkg: p.pkg,
 		noopPkgs: map[string]bool{}, initPkgs: map[string]bool{}, replace: map[string]*ssa.Function{}, replaceAlways: map[string]bool{},
-		methodCache: map[string]*ssa.Function{}}
+		methodCache: map[string]*ssa.Function{}, pkgBuilt: map[*ssa.Package]bool{}}
 	for _, n := range defaultNoop(p.modPath) {
 		in.noopPkgs[n] = true
 	}
